@@ -31,8 +31,7 @@ func c12Redirect(ext, harness string) {
 			}
 			panic(pathAbort{"unsupported", "no model for external function " + fn.String()})
 		}
-		delete(externals, ext)
-		defer func() { externals[ext] = self }()
+		skipExternalOnce = fn // run the real body (the externals lookup is cached per function)
 		return callSSA(fr.i, fr.caller, token.NoPos, fn, args, nil)
 	}
 	externals[ext] = self
